@@ -842,9 +842,16 @@ func variadicElems(v ssa.Value) ([]ssa.Value, bool) {
 // through the row's pointer field), table -> row+1: keys read from the ranged row are that row's constants.
 var rowCtx = map[*ssa.Alloc]int{}
 
+// keyFacts: while the value of one store site is followed, what the dominating branches say about key variables
+// (switch key { case "inbox": a.Inbox = box }: at that store key == "inbox").
+var keyFacts = map[ssa.Value]string{}
+
 func keyOf(v ssa.Value) keyElem {
 	if s, ok := constString(v); ok {
 		return keyElem{c: s, param: -1}
+	}
+	if k, ok := keyFacts[v]; ok {
+		return keyElem{c: k, param: -1}
 	}
 	if len(rowCtx) > 0 {
 		if rows, kf, table, isRow := literalTableRowsOf(v); isRow && rowCtx[table] > 0 {
@@ -1194,6 +1201,8 @@ func (t *tables) keysOf(v ssa.Value, seen map[ssa.Value]bool, depth int, out *[]
 		if isGobMap(x.X.Type()) {
 			if k, ok := constString(x.Index); ok {
 				*gobKeys = append(*gobKeys, k)
+			} else if k, ok := keyFacts[x.Index]; ok {
+				*gobKeys = append(*gobKeys, k)
 			} else if rows, kf, table, isRow := literalTableRowsOf(x.Index); isRow && rowCtx[table] > 0 {
 				// mm[row.key] while following the value handed to the same row's setter: that row's key
 				if k, ok := constString(rows[rowCtx[table]-1][kf]); ok {
@@ -1340,8 +1349,21 @@ func (t *tables) extractReads(f *ssa.Function) {
 		var paths [][]keyElem
 		var gobKeys []string
 		seen := map[ssa.Value]bool{}
+		// what the branches above the store say about key variables
+		for _, g := range rawGuards(b) {
+			if bo, isBin := g.cond.(*ssa.BinOp); isBin && bo.Op == token.EQL && g.onTrue {
+				if k, isK := constString(bo.Y); isK {
+					keyFacts[bo.X] = k
+				} else if k, isK := constString(bo.X); isK {
+					keyFacts[bo.Y] = k
+				}
+			}
+		}
 		for _, v := range vals {
 			t.keysOf(v, seen, 0, &paths, &gobKeys)
+		}
+		for k := range keyFacts {
+			delete(keyFacts, k)
 		}
 		if len(paths) > 0 {
 			s := &site{kind: siteJSONRead, fn: f, instr: in, field: fp, paths: paths, writer: callee}
